@@ -39,7 +39,9 @@ class SymSeq:
         if cond is None:
             return SymSeq(self.length, lambda k: fn(self.at(k)), 'gen')
         sel = Selection(self.length, lambda n: truthy(cond(self.at(n))))
-        return SymSeq(sel.count, lambda k: fn(self.at(sel.sel(k))), 'gen')
+        out = SymSeq(sel.count, lambda k: fn(self.at(sel.sel(k))), 'gen')
+        out.selection, out.source = sel, self
+        return out
 
     def _concrete_len(self):
         return isinstance(self.length, int)
